@@ -12,6 +12,7 @@ import os
 import random
 import time
 import traceback
+import zlib
 
 import hypothesis
 from hypothesis import HealthCheck, Phase, given, settings
@@ -144,7 +145,8 @@ def drive_hypothesis(sub: core.Subcheck, tier: str, seed: int, shard: int, nshar
     shrink_budget = 45.0 if tier == 'quick' else 300.0
   state = {'first_fail': None}
   n_examples = max(1, int(sub.examples[tier]) // nshards)
-  eff_seed = seed * 1000003 + shard * 7919 + 1
+  # distinct stream per sub-check and shard (stable: crc32, not hash())
+  eff_seed = seed * 1000003 + shard * 7919 + 1 + (zlib.crc32(sub.name.encode()) % 100000) * 131
 
   @hypothesis.seed(eff_seed)
   @settings(
